@@ -336,6 +336,7 @@ class CFG:
                     IN[b] = acc
                     changed = True
         self._factnode = factnode
+        self._edge_facts = ef
         self._written = written
         self._mention = mention
         return IN
@@ -371,6 +372,19 @@ class CFG:
 
     def fact_node(self, key):
         return self._factnode[key]
+
+    def facts_on_edge(self, b, s, IN):
+        """facts holding when control moves from block b to its successor s"""
+        base = IN.get(b)
+        if base is None:
+            return set()
+        w = self._written[b]
+        res = {k for k in base if not (self._mention[k] & w)} if w else set(base)
+        for (n, pol) in self._edge_facts.get((b, s), ()):
+            k = (render(n), pol)
+            if k in self._factnode:
+                res.add(k)
+        return res
 
 
 ASSIGN_OPS = {"=", "+=", "-=", "*=", "/=", "%=", "<<=", ">>=", "&=", "|=", "^="}
